@@ -146,6 +146,11 @@ class Mailbox:
         # if the nameplate is still allocated we'll get a foreign-key
         # failure when trying to delete the mailbox, so get rid of
         # those first
+        np_side_rows = db.execute("SELECT * FROM `nameplate_sides`"
+                                  " WHERE `nameplates_id` IN"
+                                  " (SELECT `id` FROM `nameplates`"
+                                  "  WHERE `mailbox_id`=?)",
+                                  (self._mailbox_id,)).fetchall()
         db.execute("DELETE FROM `nameplate_sides` WHERE `nameplates_id` IN"
                    " (SELECT `id` FROM `nameplates` WHERE `mailbox_id`=?)",
                    (self._mailbox_id,))
@@ -158,6 +163,11 @@ class Mailbox:
                    (self._mailbox_id,))
         db.execute("DELETE FROM `mailboxes` WHERE `id`=?", (self._mailbox_id,))
         if self._usage_db:
+            if np_side_rows:
+                # the nameplate was still claimed: it is retired together
+                # with its mailbox, and gets its usage record like any other
+                self._app._summarize_nameplate_and_store(np_side_rows, when,
+                                                         pruned=False)
             self._app._summarize_mailbox_and_store(for_nameplate, side_rows,
                                                 when, pruned=False)
             self._usage_db.commit()
